@@ -145,6 +145,11 @@ packet PA2 { u16 a, }
 packet PB1 { u8 b, }
 packet PB2 { i64 b, }
 """,
+    # a compact layout: several packets start on the same line
+    "oneline": opts() + """root packet Hub { u8 k, match k as body { 1 : Zulu, 2 : Alfa, [3, 4] : Mike, }, Kilo, }
+packet Zulu { u8 z, } packet Alfa { u16 a, string s, } packet Mike { i32 m, }
+packet Kilo { u8 ID, u16 ClOrdID, } packet Echo { u32 ID, }
+""",
     # packets nothing refers to (legal: a library of messages), in an order that is not alphabetical
     "unreached": opts() + """root packet Head {
     u8 a,
